@@ -583,52 +583,73 @@ theorem IndexUnique.mono {S S' : SDoc → Prop} {i i' : Index} (hu : IndexUnique
   rw [hcfg] at hun
   exact hu hun x y (hs x hx) (hs y hy) hne bx hby
 
+/-- identities determine the stored documents of `S` -/
+def IdInj (S : SDoc → Prop) : Prop := ∀ x y, S x → S y → x.id = y.id → x = y
+
+theorem IdInj.insert {S : SDoc → Prop} {sd : SDoc} (h : IdInj S) (hf : ∀ x, S x → x.id ≠ sd.id) :
+    IdInj (fun x => S x ∨ x = sd) := by
+  intro x y hx hy e
+  rcases hx with hx | rfl
+  · rcases hy with hy | rfl
+    · exact h x y hx hy e
+    · exact absurd e (hf x hx)
+  · rcases hy with hy | rfl
+    · exact absurd e.symm (hf y hy)
+    · rfl
+
+theorem IdInj.mono {S S' : SDoc → Prop} (h : IdInj S) (hs : ∀ x, S' x → S x) : IdInj S' :=
+  fun x y hx hy e => h x y (hs x hx) (hs y hy) e
+
 /-- after a successful `baseAdd` into a unique index the new document shares no key with a
     stored one (needs transitivity of `tupleEq`, hence well-formed tuples) -/
 theorem no_collision_of_baseAdd {S : SDoc → Prop} {i i' : Index} {sd : SDoc}
-    (hc : IndexCoherent sch S i) (hok : ∀ x, S x → DocOk x.doc) (hsd : DocOk sd.doc)
+    (hc : IndexCoherent sch S i) (hinj : IdInj S) (hsd : DocOk sd.doc)
     (hun : i.config.unique = true) (h : i.baseAdd sd = (i', true)) :
-    ∀ x, S x → belongs sch i x.doc → ∀ t1 ∈ tuples i.columns x.doc, ∀ t2 ∈ tuples i.columns sd.doc,
-      tupleEq t1 t2 = false := by
+    ∀ x, S x → DocOk x.doc → belongs sch i x.doc →
+      ∀ t1 ∈ tuples i.columns x.doc, ∀ t2 ∈ tuples i.columns sd.doc, tupleEq t1 t2 = false := by
   obtain ⟨_, _, _, hno⟩ := baseAdd_true h
-  intro x hx hbx t1 ht1 t2 ht2
+  intro x hx hxo hbx t1 ht1 t2 ht2
   cases heq : tupleEq t1 t2 with
   | false => rfl
   | true =>
     obtain ⟨k, hm, hk⟩ := hc.complete x hx hbx t1 ht1
-    obtain ⟨x', hx', _, _, hk'⟩ := hc.sound k x.id hm
-    have okk : TupOk k := tuples_ok _ _ (hok x' hx') k hk'
-    have ok1 : TupOk t1 := tuples_ok _ _ (hok x hx) t1 ht1
+    obtain ⟨x', hx', hid, _, hk'⟩ := hc.sound k x.id hm
+    have := hinj x' x hx' hx hid
+    subst this
+    have okk : TupOk k := tuples_ok _ _ hxo k hk'
+    have ok1 : TupOk t1 := tuples_ok _ _ hxo t1 ht1
     have ok2 : TupOk t2 := tuples_ok _ _ hsd t2 ht2
     have := tupleEq_trans k t1 t2 okk ok1 ok2 hk heq
-    have hk2 : i.hasKey t2 = true := (hasKey_iff i t2).mpr ⟨k, x.id, hm, this⟩
+    have hk2 : i.hasKey t2 = true := (hasKey_iff i t2).mpr ⟨k, x'.id, hm, this⟩
     rw [hno hun t2 ht2] at hk2; cases hk2
 
+/-- uniqueness among the well-formed documents is preserved by a successful `Index.add` -/
 theorem IndexUnique.add {S : SDoc → Prop} {i i' : Index} {sd : SDoc}
-    (hc : IndexCoherent sch S i) (hu : IndexUnique sch S i)
-    (hok : ∀ x, S x → DocOk x.doc) (hsd : DocOk sd.doc)
+    (hc : IndexCoherent sch S i) (hinj : IdInj S)
+    (hu : IndexUnique sch (fun x => S x ∧ DocOk x.doc) i)
     (h : i.add sch sd = .ok (i', true)) :
-    IndexUnique sch (fun x => S x ∨ x = sd) i' := by
+    IndexUnique sch (fun x => (S x ∨ x = sd) ∧ DocOk x.doc) i' := by
   obtain ⟨hcfg, hcol⟩ := add_shape h
   intro hun x y hx hy hne bx hby t1 ht1 t2 ht2
   rw [hcol] at ht1 ht2
   rw [belongs_config hcfg] at bx hby
   rw [hcfg] at hun
-  -- the only interesting case: one of them is the new document, which then belongs
-  have key : ∀ z, S z → belongs sch i z.doc → belongs sch i sd.doc →
+  have key : ∀ z, S z → DocOk z.doc → DocOk sd.doc → belongs sch i z.doc → belongs sch i sd.doc →
       ∀ u1 ∈ tuples i.columns z.doc, ∀ u2 ∈ tuples i.columns sd.doc, tupleEq u1 u2 = false := by
-    intro z hz hbz hbs
+    intro z hz hzo hsd hbz hbs
     unfold Index.add at h
     unfold belongs at hbs
     rw [hbs] at h
     simp only [Except.ok.injEq] at h
-    exact no_collision_of_baseAdd hc hok hsd hun h z hz hbz
+    exact no_collision_of_baseAdd hc hinj hsd hun h z hz hzo hbz
+  obtain ⟨hx, hxo⟩ := hx
+  obtain ⟨hy, hyo⟩ := hy
   rcases hx with hx | rfl
   · rcases hy with hy | rfl
-    · exact hu hun x y hx hy hne bx hby t1 ht1 t2 ht2
-    · exact key x hx bx hby t1 ht1 t2 ht2
+    · exact hu hun x y ⟨hx, hxo⟩ ⟨hy, hyo⟩ hne bx hby t1 ht1 t2 ht2
+    · exact key x hx hxo hyo bx hby t1 ht1 t2 ht2
   · rcases hy with hy | rfl
-    · rw [tupleEq_symm]; exact key y hy hby bx t2 ht2 t1 ht1
+    · rw [tupleEq_symm]; exact key y hy hyo hxo hby bx t2 ht2 t1 ht1
     · exact absurd rfl hne
 
 end Lungo
